@@ -290,3 +290,7 @@ def p3_loops(ck, ctx):
     lines_loop = any(any(ex.term(x)["k"] == "call" and is_iter_next(callee_name(ex.term(x))) and "io::Lines" in callee_name(ex.term(x)) for x in cfg.natural_loop(ex, be)) for be in outer)
     ck.req(lines_loop, "P3.command_loop", "Client::exec", ex.where(), "the command loop does not consume one stdin line per iteration")
     ck.extra["loops_checked"] = n
+
+
+for _f in (setup, p1_inventory, inv_constructions, ak_array_keys, si_success_implies):
+    _f.raw_bodies = True
